@@ -6,6 +6,7 @@ vars == <<op, ins, outs, lay, scale, emitted>>
 Init == /\ op \in Ops /\ ins \in InShapes /\ outs \in OutShapes /\ Applicable(op, ins, outs)
         /\ lay \in {l \in Layouts : ValidLayout(l)} /\ scale \in {1, 2}
         /\ (scale = 2 => lay.kw)
+        /\ (lay.neg => op \in NegOps)
         /\ emitted = FALSE
 Next == /\ ~emitted /\ emitted' = TRUE /\ UNCHANGED <<op, ins, outs, lay, scale>>
         /\ (Export => PrintT(ToJson([op |-> op, ins |-> ins, outs |-> outs, lay |-> lay, scale |-> scale, exp |-> Expected(op, ins, outs, scale)])))
